@@ -128,4 +128,99 @@ def build(env):
     rnd.random = lambda: uniform(0, 1)
     rnd.seed = lambda *a: None
     st['random'] = rnd
+    rt, rti = build_rtree()
+    st['rtree'] = rt
+    st['rtree.index'] = rti
     return st
+
+
+# ---------------------------------------------------------------------------------------------
+# rtree.index double: exact in-memory index.  nearest() orders items by squared distance between
+# bounding boxes, ties in insertion order (comparisons on symbolic distances fork the path).
+# ---------------------------------------------------------------------------------------------
+
+class _RtreeItem:
+    def __init__(self, id, bbox, obj):
+        self.id = id
+        self.bbox = list(bbox)
+        self.object = obj
+
+
+class _RtreeProperty:
+    def __init__(self):
+        self.dimension = 2
+
+
+class _RtreeIndex:
+    def __init__(self, *a, properties=None, **k):
+        self.dim = properties.dimension if properties is not None else 2
+        self.items = []
+        USED.note('rtree.index.Index (in-memory double)')
+
+    def insert(self, id, coordinates, obj=None):
+        c = list(coordinates)
+        if len(c) != 2 * self.dim:
+            raise Exception('Coordinates must be in the form (minx, miny, maxx, maxy) or (x, y) for 2D indexes')
+        self.items.append(_RtreeItem(id, c, obj))
+    add = insert
+
+    def _dist2(self, item, q):
+        d = self.dim
+        tot = 0
+        for i in range(d):
+            lo, hi = item.bbox[i], item.bbox[i + d]
+            qlo, qhi = q[i], q[i + d]
+            # gap between [lo,hi] and [qlo,qhi] along axis i
+            if qlo > hi:
+                g = qlo - hi
+            elif lo > qhi:
+                g = lo - qhi
+            else:
+                g = 0
+            tot = tot + g * g
+        return tot
+
+    def nearest(self, coordinates, num_results=1, objects=False):
+        q = list(coordinates)
+        scored = [(self._dist2(it, q), k, it) for k, it in enumerate(self.items)]
+        # stable selection sort with (possibly symbolic) comparisons
+        out = []
+        remaining = scored
+        while remaining and len(out) < num_results:
+            best = 0
+            for j in range(1, len(remaining)):
+                if remaining[j][0] < remaining[best][0]:
+                    best = j
+            out.append(remaining[best])
+            remaining = remaining[:best] + remaining[best + 1:]
+        # rtree returns all items tied with the last one as well
+        if out and remaining:
+            last = out[-1][0]
+            for r in list(remaining):
+                if r[0] == last:
+                    out.append(r)
+        if objects:
+            return iter([o[2] for o in out])
+        return iter([o[2].id for o in out])
+
+    def intersection(self, coordinates, objects=False):
+        q = list(coordinates)
+        d = self.dim
+        res = []
+        for it in self.items:
+            ok = True
+            for i in range(d):
+                if it.bbox[i] > q[i + d] or it.bbox[i + d] < q[i]:
+                    ok = False
+                    break
+            if ok:
+                res.append(it if objects else it.id)
+        return iter(res)
+
+    def count(self, coordinates):
+        return len(list(self.intersection(coordinates)))
+
+
+def build_rtree():
+    idx = _mod('rtree.index', Index=_RtreeIndex, Property=_RtreeProperty, Item=_RtreeItem)
+    return _mod('rtree', index=idx), idx
